@@ -617,7 +617,7 @@ def bip38_encrypt(private_hex, address, password, flagbyte=b'\xe0'):
     return base58encode(encrypted_privkey)
 
 
-def bip38_intermediate_password(passphrase, lot=None, sequence=None, owner_salt=os.urandom(8)):
+def bip38_intermediate_password(passphrase, lot=None, sequence=None, owner_salt=None):
     """
     Intermediate passphrase generator for EC multiplied BIP38 encrypted private keys.
     Source: https://github.com/meherett/python-bip38/blob/master/bip38/bip38.py
@@ -640,6 +640,8 @@ def bip38_intermediate_password(passphrase, lot=None, sequence=None, owner_salt=
 
     """
 
+    if owner_salt is None:
+        owner_salt = os.urandom(8)
     owner_salt = to_bytes(owner_salt)
     if len(owner_salt) not in [4, 8]:
         raise ValueError(f"Invalid owner salt length (expected: 4 or 8 bytes, got: {len(owner_salt)})")
@@ -672,7 +674,7 @@ def bip38_intermediate_password(passphrase, lot=None, sequence=None, owner_salt=
     return pubkeyhash_to_addr_base58(magic + owner_entropy + HDKey(pass_factor).public_byte, prefix=b'')
 
 
-def bip38_create_new_encrypted_wif(intermediate_passphrase, compressed=True, seed=os.urandom(24),
+def bip38_create_new_encrypted_wif(intermediate_passphrase, compressed=True, seed=None,
                                    network=DEFAULT_NETWORK):
     """
     Create new encrypted WIF BIP38 EC multiplied key. Use :func:`bip38_intermediate_password` to create an
@@ -691,6 +693,8 @@ def bip38_create_new_encrypted_wif(intermediate_passphrase, compressed=True, see
 
     """
 
+    if seed is None:
+        seed = os.urandom(24)
     seed_b = to_bytes(seed)
     intermediate_password_bytes = change_base(intermediate_passphrase,58, 256)
     check = intermediate_password_bytes[-4:]
